@@ -204,6 +204,7 @@ def _stateful_subclasses(c):
 
 
 _PROBE = []
+PROBE_LATE = (2, 7)      # FrozenSet[str] and Tuple[int, str]: registered late in the machine
 
 
 def probe_registry():
@@ -574,6 +575,21 @@ def record(tier, seed, path):
             add(j)
     for tp in (typing.Any, frozenset, ops.AddOp, str, typing.Tuple[Tensor, ...], Funsor):
         add(T.intern(typing_wrap(tp)))
+    # generalisations of the precise types of sample terms that carry a PARAMETRISED frozenset /
+    # tuple in a class-parameter position (the library's own patterns only use bare frozenset):
+    # a term must be an instance of them (found by a seeded fault that typed frozenset arguments
+    # as bare `frozenset` at construction)
+    from funsor.cnf import Contraction as _Con
+    for tp in (Reduce[ops.Op, Funsor, typing.FrozenSet[Variable]],
+               Reduce[ops.AddOp, Tensor, typing.FrozenSet[Variable]],
+               Reduce[ops.AssociativeOp, Funsor, typing.FrozenSet[Funsor]],
+               _Con[ops.Op, ops.Op, typing.FrozenSet[Variable], typing.Tuple[Funsor, ...]],
+               _Con[ops.AddOp, ops.MulOp, typing.FrozenSet[Variable], typing.Tuple[Tensor, Tensor]],
+               Subs[Funsor, typing.Tuple[typing.Tuple[str, Funsor], ...]]):
+        try:
+            add(T.intern(tp))
+        except Exception:  # noqa
+            pass
     if tier == "quick":
         for i in sig_comp:
             if len(pool) < budget - 45:
@@ -841,9 +857,16 @@ def choose_machine(rec, tier, ok_ids):
         for lst in itertools.zip_longest(*byfn.values()):
             pick += [k for k in lst if k is not None]
         pick = pick[:(n_tup + 1 if ri in probe else n_tup)]
-        machine.append({"reg": ri + 1, "tuples": [rec.events[k]["args"] for k in pick], "_events": pick})
+        # late registration (probe registry only): these signatures are added by a Register
+        # action after some dispatches - Dispatcher.add must drop the cached choices
+        late = []
+        if ri in probe:
+            late = [k + 1 for k, (sig, fn) in enumerate(rec.regs[ri].sigs)
+                    if getattr(fn, "k", None) in PROBE_LATE]
+        machine.append({"reg": ri + 1, "tuples": [rec.events[k]["args"] for k in pick], "_events": pick,
+                        "late": late})
     rec.machine = machine
-    rec.header["machine"] = [{"reg": m["reg"], "tuples": m["tuples"]} for m in machine]
+    rec.header["machine"] = [{"reg": m["reg"], "tuples": m["tuples"], "late": m["late"]} for m in machine]
     write(rec)
     return machine
 
@@ -884,6 +907,12 @@ def replay_machine(rec, records):
             mach = rec.machine[b["m"] - 1]
             reg = rec.regs[mach["reg"] - 1]
             d = reg.d
+            if mach.get("late"):
+                # a fresh dispatcher of the library's class with the not-late signatures registered
+                d = PartialDispatcher(name=reg.name)
+                for k, (sig, fn) in enumerate(reg.sigs):
+                    if k + 1 not in mach["late"]:
+                        d.add(tuple(unwrap(x) for x in sig), fn)
             _cold(d)
             out["behaviours"] += 1
             for step in b["log"]:
@@ -892,6 +921,9 @@ def replay_machine(rec, records):
                     d._cache.clear()
                 elif step["a"] == "f":
                     _cold(d)
+                elif step["a"] == "r":
+                    sig, fn = reg.sigs[step["t"] - 1]
+                    d.add(tuple(unwrap(x) for x in sig), fn)
                 else:
                     out["dispatch_steps"] += 1
                     args = rec.events[mach["_events"][step["t"] - 1]]["_args"]
